@@ -3,6 +3,7 @@
 package scope
 
 import (
+	"errors"
 	"sync"
 
 	"github.com/goatcms/goatcore/app"
@@ -59,4 +60,39 @@ func ZZVerifC12LateChild() {
 	parent.Wait()
 	nd.Assert(parent.IsDone(), "C12/latechild-parent-done")
 	nd.Reach("C12/latechild-end")
+}
+
+// ZZVerifC12ScopeAppend: Scope.AppendError with any argument list (nil and
+// non-nil entries in any positions), on a plain scope or a child, possibly
+// twice: every non-nil error is retained in order and reported by Errors(),
+// Err() and Wait(); the scope is done exactly if some error was appended.
+func ZZVerifC12ScopeAppend() {
+	var scp app.Scope = New(Params{Name: "s"})
+	if nd.Bool("child") {
+		scp = NewChild(scp, ChildParams{Name: "c"})
+	}
+	var want []error
+	calls := 1 + nd.Choose("calls", 2)
+	for c := 0; c < calls; c++ {
+		n := nd.Choose("nargs", nd.Param("AA", 3)+1)
+		args := make([]error, n)
+		for i := range args {
+			if nd.Bool("non-nil") {
+				args[i] = errors.New("e")
+				want = append(want, args[i])
+			}
+		}
+		scp.AppendError(args...)
+	}
+	got := scp.Errors()
+	nd.Assert(len(got) == len(want), "C12/scope-append-count")
+	for i := range want {
+		if i < len(got) {
+			nd.Assert(got[i] == want[i], "C12/scope-append-retained-in-order")
+		}
+	}
+	nd.Assert(scp.IsDone() == (len(want) > 0), "C12/scope-append-done-iff-error")
+	nd.Assert((scp.Err() != nil) == (len(want) > 0), "C12/scope-append-err-iff-error")
+	nd.Assert((scp.Wait() != nil) == (len(want) > 0), "C12/scope-append-wait-reports")
+	nd.Reach("C12/scope-append-end")
 }
